@@ -669,6 +669,8 @@ where
             .corrupted_blobs
             .store(corrupted, Ordering::Release);
 
+        Self::skip_corrupted_blob_ids(&self.inner).await;
+
         let next = self.inner.next_blob_name()?;
         let mut safe = self.inner.safe.write().await;
         let blob =
@@ -696,6 +698,7 @@ where
         self.inner
             .next_blob_id
             .store(max_blob_id.map_or(0, |i| i + 1), Ordering::Release);
+        Self::skip_corrupted_blob_ids(&self.inner).await;
 
         debug!("{} blobs successfully created", blobs.len());
         blobs.sort_by_key(Blob::id);
@@ -838,6 +841,25 @@ where
         }
 
         corrupted
+    }
+
+    /// Ids of blobs that were moved to the corrupted dir (in this or in an earlier run) must not be given
+    /// to new blobs: a later quarantine of the new blob would overwrite the saved file
+    async fn skip_corrupted_blob_ids(inner: &Inner<K>) {
+        let Some(work_dir_path) = inner.config.work_dir() else {
+            return;
+        };
+        let corrupted_dir_path = work_dir_path.join(inner.config.corrupted_dir_name());
+        let Ok(mut dir) = read_dir(&corrupted_dir_path).await else {
+            return;
+        };
+        while let Ok(Some(file)) = dir.next_entry().await {
+            let path = file.path();
+            let is_blob = path.extension().and_then(|ext| ext.to_str()) == Some(BLOB_FILE_EXTENSION);
+            if let (true, Ok(name)) = (is_blob, blob::FileName::from_path(&path)) {
+                inner.next_blob_id.fetch_max(name.id() + 1, Ordering::AcqRel);
+            }
+        }
     }
 
     fn should_save_corrupted_blob(error: &anyhow::Error) -> bool {
